@@ -49,10 +49,15 @@ def safe_repr(obj: Any, maxlen: int = 200) -> str:
 
 
 def serialize_json_safe(obj: Any) -> Any:
-    """Return ``obj`` if JSON serializable, else ``safe_repr`` string."""
+    """Return ``obj`` if JSON serializable, else ``safe_repr`` string.
+
+    Serializable means serializable the way trace drivers write records, i.e.
+    with ``sort_keys=True``: a mapping whose keys cannot be ordered against
+    each other (``{1: ..., "b": ...}``) is not.
+    """
 
     try:
-        json.dumps(obj, ensure_ascii=False)
+        json.dumps(obj, ensure_ascii=False, sort_keys=True)
         return obj
     except Exception:
         return safe_repr(obj)
